@@ -197,6 +197,18 @@ class TraceVisitor(Visitor):
             self.index = index
             self.visit(loop.statements)
 
+        if loop.iterations <= 0:
+            # The loop body never runs, so none of the traces starting
+            # inside of it are visited: move on to the first trace after
+            # the loop (otherwise the enclosing block would keep coming
+            # back to this loop forever).
+            while self.objective and self.objective[: len(address)] == address:
+                self.index += 1
+                if self.index == len(self.traces):
+                    self.objective = None
+                else:
+                    self.objective = self.traces[self.index].start
+
     def visit_CaseStatement(self, case):
         # store the walk status
         index = self.index
